@@ -131,6 +131,10 @@ int assemble_string_counting_chunks(assemblyline_t al, char *str,
 
 int asm_assemble_string_counting_chunks(assemblyline_t al, char *str,
                                         int chunk_size, int *dest) {
+  // counting is a property of this call only: the instance's assembly mode
+  // and chunk size are restored afterwards
+  ASM_MODE saved_mode = al->assembly_mode;
+  size_t saved_chunk_size = al->chunk_size;
   al->assembly_mode = CHUNK_COUNT;
   if (chunk_size < 2)
     al->assembly_mode = ASSEMBLE;
@@ -138,6 +142,8 @@ int asm_assemble_string_counting_chunks(assemblyline_t al, char *str,
   check_buffer_len(al->buffer_len);
   // assemble string containing x64 assembly code
   int new_offset = assemble_all(al, str, dest);
+  al->assembly_mode = saved_mode;
+  al->chunk_size = saved_chunk_size;
   // a failed call keeps the previous offset so the instance stays usable
   FAIL_IF(new_offset == ASM_ERROR);
   al->offset = new_offset;
